@@ -372,8 +372,17 @@ func hasCard4096(vals []uint64) bool {
 	return false
 }
 
+// rotProf picks one of all (inner shape x key placement) combinations by behaviour index
+// and seed; "spread"/"high" keys are used only where every operation supports them.
+func rotProf(bi int, seed int64) profSel {
+	inners := []string{"array", "thresh", "comb", "runs", "runthresh", "longruns", "full", "mixed", "edge"}
+	keysets := []string{"low", "gap", "spread", "high"}
+	n := bi*7 + int(seed)*5
+	return profSel{inner: inners[n%len(inners)], keyset: keysets[(n/len(inners))%len(keysets)]}
+}
+
 func histProfiles(seed int64, K int) []profSel {
-	inners := []string{"edge", "array", "thresh", "comb", "runs", "runthresh", "full", "mixed"}
+	inners := []string{"edge", "array", "thresh", "comb", "runs", "runthresh", "longruns", "full", "mixed"}
 	keysets := gamma.KeySets
 	n := 1
 	if behav.Thorough() {
@@ -447,7 +456,11 @@ func runHistTest(t *testing.T, mode string) {
 	total := len(behs) * len(profs)
 	behav.Parallel(total, func(i int) {
 		bi, pi := i/len(profs), i%len(profs)
-		c := &histCase{Beh: behs[bi], Inner: profs[pi].inner, KeySet: profs[pi].keyset, K: K, M: M, Seed: seed, Mode: mode,
+		ps := profs[pi]
+		if !behav.Thorough() && pi > 0 && os.Getenv("VERIF_PROFILES") == "" {
+			ps = rotProf(bi, seed) // quick tier: the second profile rotates over all shapes and key placements
+		}
+		c := &histCase{Beh: behs[bi], Inner: ps.inner, KeySet: ps.keyset, K: K, M: M, Seed: seed, Mode: mode,
 			Style: EncStyles[(bi+pi+int(seed))%len(EncStyles)]}
 		exec(c, res.Cover)
 		res.CountEval()
